@@ -171,6 +171,26 @@ class Heap:
         h.alloc = fresh(f"{tag}_alloc", I)
         return h
 
+    def closed_facts(self):
+        """every reference stored in a container or attribute is allocated (invariant of all states)"""
+        from .smt import get_ref, is_ref
+        r, i = z3.Ints("cl_r cl_i")
+        k = z3.Const("cl_k", Val)
+        out = []
+
+        def ok(v):
+            return z3.Implies(is_ref(v), z3.And(get_ref(v) >= 0, get_ref(v) < self.alloc))
+        v = z3.Select(z3.Select(self.arr["lelem"], r), i)
+        out.append(z3.ForAll([r, i], ok(v), patterns=[v]))
+        v = z3.Select(z3.Select(self.arr["dkeys"], r), i)
+        out.append(z3.ForAll([r, i], ok(v), patterns=[v]))
+        v = z3.Select(z3.Select(self.arr["dval"], r), k)
+        out.append(z3.ForAll([r, k], ok(v), patterns=[v]))
+        for f, a in self.fld.items():
+            v = z3.Select(a, r)
+            out.append(z3.ForAll([r], z3.Implies(r >= 0, ok(v)), patterns=[v]))
+        return out
+
     def frame_facts(self, old: "Heap", kinds, fields, may_modify):
         """facts: every reference allocated in `old` for which may_modify(r) is false keeps its
         contents in the havocked arrays of self."""
